@@ -1,6 +1,7 @@
 package rules
 
 import (
+	"go/types"
 	"go/constant"
 	"fmt"
 	"go/token"
@@ -66,6 +67,7 @@ func c04lambda(c *core.Ctx, r *core.Reporter) {
 		fmt.Sprintf("%d raise sites, %d reachable with an empty argument list: %s", nRaise, nZero, strings.Join(sites, " ")))
 
 	c04keyscan(c, r, fn)
+	c04generic(c, r)
 
 	// C04.lam: marker constants compared per top-level loop and per arm of the mode switch
 	loops := core.Loops(fn)
@@ -260,4 +262,85 @@ func startsAfter(v ssa.Value, outerIdx *ssa.Phi) bool {
 		break
 	}
 	return false
+}
+
+// c04generic: a generic function enforces the number of required arguments of its lambda list before any
+// method runs (the methods themselves are lambdas, and Lambda.Call does not reject too few arguments).
+func c04generic(c *core.Ctx, r *core.Reporter) {
+	const rule = "C04.generic"
+	r.Rule(rule, "in the dispatcher of generic functions ((*Aux).Call) every invocation of a method or caller is reached only after the comparison of len(args) with the generic function's required-argument count (Aux.reqCnt) came out sufficient: a fast path that runs a method before the check executes it with required parameters unbound", 2)
+	var fn *ssa.Function
+	for _, f := range c.ModuleFuncs() {
+		if f.Name() == "Call" && f.Signature.Recv() != nil && f.Parent() == nil {
+			rt := f.Signature.Recv().Type()
+			if pt, ok := rt.(*types.Pointer); ok {
+				rt = pt.Elem()
+			}
+			if core.IsNamed(rt, genericPath, "Aux") {
+				fn = f
+			}
+		}
+	}
+	if fn == nil {
+		r.Undecided(rule, "pkg/generic.(Aux).Call", "-", "anchor does not resolve")
+		return
+	}
+	an := lenflow.New(c)
+	g := core.ComputeGuards(fn, an.NoReturn)
+	isLenArgs := func(v ssa.Value) bool {
+		call, ok := v.(*ssa.Call)
+		if !ok {
+			return false
+		}
+		bi, ok := call.Call.Value.(*ssa.Builtin)
+		if !ok || bi.Name() != "len" || len(call.Call.Args) != 1 {
+			return false
+		}
+		_, isP := call.Call.Args[0].(*ssa.Parameter)
+		return isP && isObjectSlice(call.Call.Args[0].Type())
+	}
+	isReqCnt := func(v ssa.Value) bool {
+		u, ok := v.(*ssa.UnOp)
+		if !ok || u.Op != token.MUL {
+			return false
+		}
+		fa, ok := u.X.(*ssa.FieldAddr)
+		return ok && fieldName(fa) == "reqCnt"
+	}
+	checked := func(b *ssa.BasicBlock) bool {
+		for f := range g.Facts(b) {
+			bo, ok := f.If.Cond.(*ssa.BinOp)
+			if !ok {
+				continue
+			}
+			// len(args) < reqCnt false, reqCnt > len(args) false, len(args) >= reqCnt true, reqCnt <= len(args) true
+			switch {
+			case isLenArgs(bo.X) && isReqCnt(bo.Y):
+				if (bo.Op == token.LSS && !f.Branch) || (bo.Op == token.GEQ && f.Branch) {
+					return true
+				}
+			case isReqCnt(bo.X) && isLenArgs(bo.Y):
+				if (bo.Op == token.GTR && !f.Branch) || (bo.Op == token.LEQ && f.Branch) {
+					return true
+				}
+			}
+		}
+		return false
+	}
+	n := 0
+	for _, b := range fn.Blocks {
+		for _, in := range b.Instrs {
+			call, ok := in.(*ssa.Call)
+			if !ok {
+				continue
+			}
+			name := callMethodName(call)
+			if name != "Call" && name != "BoundCall" && name != "Apply" {
+				continue
+			}
+			n++
+			key := fmt.Sprintf("pkg/generic.(Aux).Call|invocation %d (%s)", n, name)
+			r.Decide(checked(b), rule, key, c.Pos(call.Pos()), fmt.Sprintf("reached only with the required-argument count checked: %v", checked(b)))
+		}
+	}
 }
